@@ -1,3 +1,14 @@
-/- Property theorems for C02 — to be filled in. -/
+/- C02 — first engine facts; more below as they land. -/
+import Stab.Lemmas.EngineBasic
 namespace Stab.Props.C02
+open Stab Stab.Engine
+/-- RunTask executes the task only if the durable task status is RUNNING. -/
+theorem run_requires_running (c : Cfg) (s : State) (id i t a : Nat)
+    (h : (hRunTask c s id i t a).2 = true) : ((s.stage i).tasks.getD t default).status = .running := by
+  unfold hRunTask at h
+  apply Classical.byContradiction
+  intro hne
+  have : (((s.stage i).tasks.getD t default).status != Status.running) = true := by simpa using hne
+  simp only [this, ↓reduceIte] at h
+  exact absurd h (by decide)
 end Stab.Props.C02
